@@ -392,6 +392,41 @@ func (p *prop) genEnf(rng *core.Rand) string {
 	return fmt.Sprintf("enf %s %s %s %s", strict, fmtPolicies(pols), sitesF, strings.Join(rs, ";"))
 }
 
+func (p *prop) genCF(rng *core.Rand) string {
+	opt := rng.Pick([]string{"n", "n", "n", "n", "n", "b", "t", "f", "f", "x"})
+	if opt == "x" && rng.Chance(2, 3) {
+		opt = "n"
+	}
+	perm := []int{0, 1, 2, 3}
+	for i := 3; i > 0; i-- {
+		j := rng.Intn(i + 1)
+		perm[i], perm[j] = perm[j], perm[i]
+	}
+	n := 1 + rng.Intn(4)
+	common := "rqgRkflpv"
+	rare := "xKFMjJP"
+	var ss []string
+	for _, idx := range perm[:n] {
+		var subs string
+		switch x := rng.Intn(10); {
+		case x < 3:
+			subs = "~"
+		case x < 4:
+			subs = "."
+		default:
+			for k := 1 + rng.Intn(3); k > 0; k-- {
+				if rng.Chance(1, 9) {
+					subs += string(rare[rng.Intn(len(rare))])
+				} else {
+					subs += string(common[rng.Intn(len(common))])
+				}
+			}
+		}
+		ss = append(ss, fmt.Sprintf("%d/%s", idx, subs))
+	}
+	return fmt.Sprintf("cf %s %s", opt, strings.Join(ss, ";"))
+}
+
 func (p *prop) genE2E(rng *core.Rand) string {
 	names := []string{"secret.test", "SECRET.test", "Secret.Test", "[secret.test]", "[secret.test", "secret.test]",
 		"[public.test]", "secret.test:443", "[SECRET.TEST]", "public.test]", " secret.test", "*.test"}
@@ -428,7 +463,8 @@ func (p *prop) genE2E(rng *core.Rand) string {
 }
 
 var malformed = []string{
-	"ca", "ca 1", "ca 00000000", "ca 0100000", "ca 2000000", "ca 1300000", "ca 1000006", "ca 100000x", "ca 1000000 1",
+	"cf", "cf n", "cf n 2", "cf n 2/", "cf n 4/q", "cf n 2/q;2/r", "cf z 2/q", "cf n 2/Z", "cf n 2/q;", "cf n 2/q 1", "cf n 2/~q",
+	"ca", "ca 1", "ca 00000000", "ca 0100000", "ca 2000000", "ca 1300000", "ca 1030000", "ca 1000006", "ca 100000x", "ca 1000000 1",
 	"e2e", "e2e 0 f 2d 2d", "e2e 0 p1 7075626c69632e74657374", "e2e 1 p2 7075626c69632e74657374 2d", "e2e 0 p1 3132372e302e302e31 2d", "e2e 2 p1 612e 2d",
 	"e2e 1 p1 c3a8 2d", "e2e 0 f zz 2d", "e2e 0 f 7075626c69632e74657374 2d x", "e2e 3 f 7075626c69632e74657374 2d", "e2e f 7075626c69632e74657374 2d", "e2e 00 f 7075626c69632e74657374 2d",
 	"", "pol", "enf", "xyz 1 2 3", "pol 0 . .", "pol 2 . 2d/0/6/0000000000000000", "pol 0 -/~/~", "pol 0 -/~ 2d/0/6/0000000000000000",
@@ -498,20 +534,21 @@ func (p *prop) Generate(rng *core.Rand, tier string, emit func(string)) {
 		emit("pol 0 . 2d/0/6/0000000000000000") // Run reports the setup failure
 		return
 	}
-	nPol, nEnf, nBad, nE2E := 6000, 10000, 800, 600
+	nPol, nEnf, nBad, nE2E, nCF := 6000, 10000, 800, 600, 1500
 	switch tier {
 	case "thorough":
-		nPol, nEnf, nBad, nE2E = 60000, 100000, 5000, 6000
+		nPol, nEnf, nBad, nE2E, nCF = 60000, 100000, 5000, 6000, 20000
 	case "search":
-		nPol, nEnf, nBad, nE2E = 8000, 12000, 0, 600
+		nPol, nEnf, nBad, nE2E, nCF = 8000, 12000, 0, 600, 2000
 	}
 	rp, re, rb, r2 := rng.Fork(), rng.Fork(), rng.Fork(), rng.Fork()
+	r3 := rng.Fork()
 	for _, m := range malformed {
 		emit(m)
 	}
 	// client_authentication field by field: EVERY combination, every run
 	emit("ca 0000000")
-	for a := 0; a < 2; a++ {
+	for a := 0; a < 3; a++ {
 		for b := 0; b < 3; b++ {
 			for c := 0; c < 3; c++ {
 				for d := 0; d < 3; d++ {
@@ -534,6 +571,9 @@ func (p *prop) Generate(rng *core.Rand, tier string, emit func(string)) {
 		}
 		if i < nE2E {
 			emit(p.genE2E(r2))
+		}
+		if i < nCF {
+			emit(p.genCF(r3))
 		}
 		if i < nBad {
 			var base string
